@@ -47,6 +47,19 @@ PROPS = {
                 "and the run got past the first path lookup.",
         "assumptions": COMMON_ASSUMPTIONS,
     },
+    "C05": {
+        "variants": {"quick": ["rel", "nofast", "diag"], "thorough": ["rel", "nofast", "diag"]},
+        "log": True,
+        "py_multi": "pymon.c05check",
+        "budget_s": (25, 1200),
+        "min_nontrivial": {"quick": 20000, "thorough": 200000},
+        "must_observe": ["kind_op", "kind_prog", "kind_path", "log:boundary_rows", "log:sha256_precomputed_rows", "log:path_rows", "log:pre_eval_callbacks", "log:counters_runs"],
+        "rule": "The same seeded workload runs in three builds of the library (default, --features no-fastpath, --features counters,pre-eval with an observe-only pre/post-eval callback): (a) + - * > = logand sha256 on every pair (and triples, pairs at every position) of "
+                "machine-word boundary integers 0,+-1,+-2^k-1,+-2^k,+-2^k+1 stored inline and forced to the heap, budgets crossing inside the loops; (b) sha256 (1 n) for n in 0..47 in all spellings/arities; (c) path lookups for every bit length 0..40 x {canonical, "
+                "raw magnitude i.e. negative spelling, redundant leading zeros} x {inline, heap} over an environment where every 40-step path exists; (d) random typed programs and random operator calls. Records (result hash, cost, error, atom/pair/heap counts) are compared line by line; "
+                "in the diag build run_program_with_counters must additionally equal run_program_with_pre_eval. Non-trivial: successful cases (distinct keys).",
+        "assumptions": COMMON_ASSUMPTIONS + ["all three builds execute the identical generator (own PRNG, no dependence on crate features); lock-step is verified on (case, kind, key) for every line"],
+    },
     "C06": {
         "variants": REL,
         "budget_s": (25, 1200),
